@@ -33,9 +33,11 @@ func (core *JApiCore) processContext(d *directive.Directive, root *[]*directive.
 						d.String(),
 					))
 				}
-				*root = append(*root, d)
-				core.currentContextDirective = d
-				return nil
+				// The HTTP method with its own path closes the implicit URL context,
+				// then it is resolved as usual (it becomes a root directive, or a
+				// child of the MACRO in which the URL is defined).
+				core.currentContextDirective = core.currentContextDirective.Parent
+				continue
 			}
 
 			d.Parent = core.currentContextDirective
